@@ -374,6 +374,180 @@ def explore(rng, n):
     return chunks("x", ops, 1)
 
 
+
+# ---------------------------------------------------------------------------------- stream 4
+# transcribed kernels (`k.*`, bit-exact tie) and the exact reflections (`refl.*`).  Every generator
+# below is aimed at one decision of the anchored code; props/C08.coverage.md lists which.
+def lg(a):
+    return math.lgamma(a) if a > 0 else 0.0
+
+
+def clampp(p):
+    return min(max(p, .000002), .999998)
+
+
+def kernel_grid():
+    """the guard grids of stream 1, on the transcribed kernels"""
+    ops = []
+    for x, a in itertools.product(X_SPECIAL, SHAPE_SPECIAL):
+        ops.append("k.ig %s %s %s" % (hx(x), hx(a), hx(lg(a))))
+    for p, v in itertools.product(P_SPECIAL, SHAPE_SPECIAL + [0.1, 400.0]):
+        ops.append("k.qchisq %s %s" % (hx(p), hx(v)))
+    for x, a, b in itertools.product(X01_SPECIAL, BSHAPE_SPECIAL, BSHAPE_SPECIAL):
+        ops.append("k.ibeta %s %s %s" % (hx(x), hx(a), hx(b)))
+    PQ = [-1.0, -1e-300, -0.0, 0.0, 1e-6, 0.25, 0.5, 0.75, 1 - 1e-6, 1.0, nxt(1.0, 1), 2.0]
+    for p, a, b in itertools.product(PQ, QBSHAPE_SPECIAL, QBSHAPE_SPECIAL):
+        ops.append("k.qbeta %s %s %s" % (hx(p), hx(a), hx(b)))
+    return chunks("kgrid", ops)
+
+
+def ig_point(rng):
+    """(x, shape) for incompleteGamma: both branches, the switch and its neighbours, the far-tail
+    guard (factor == 0 on the continued-fraction side), factor == 0 on the series side, the
+    rescaling of the continued fraction (|pn[4]| >= 1e30), pn[5] == 0"""
+    a = log_uniform(rng, 0.05, 200)
+    k = rng.randrange(12)
+    if k <= 3:
+        x = gamma_x(rng, a, 1.0)
+    elif k == 4:
+        x = nxt(a, rng.randint(-2, 2)) if a > 1 else nxt(1.0, rng.randint(-2, 2))      # the switch
+    elif k == 5:
+        x = (a + 40 * math.sqrt(a) + 700) * log_uniform(rng, 1, 1e3)                    # factor == 0, CF side
+    elif k == 6:
+        a = log_uniform(rng, 150, 1e4); x = a * log_uniform(rng, 1e-4, 0.05)            # factor == 0, series side
+    elif k == 7:
+        x = log_uniform(rng, 30, 600)                                                   # long CF: rescaling
+    elif k == 8:
+        a = float(rng.randint(1, 6)); x = a + rng.randint(0, 40)                        # integer shape: CF terminates (an == 0)
+    elif k == 9:
+        a = log_uniform(rng, 1e3, 1e6); x = a * rng.uniform(0.5, 1.5)                   # long loops
+    elif k == 10:
+        x = log_uniform(rng, 1e-300, 1e-5)
+    else:
+        a = rng.choice([1.0, 2.0, 0.5, 1.5]); x = rng.choice([1.0, 2.0, 0.5, 1.5, 3.0])
+    return x, a
+
+
+def qchisq_point(rng):
+    """(p, v): the three starting values (closed form incl. its early return, v <= .32, Wilson-Hilferty
+    incl. its tail correction) and their cut-offs"""
+    k = rng.randrange(10)
+    p = clampp(pq(rng))
+    if k == 0:
+        v = log_uniform(rng, 0.1, 400)
+    elif k == 1:                                   # closed form, early return ch < 5e-7
+        v = log_uniform(rng, 0.1, 1.5); p = clampp(log_uniform(rng, 2e-6, 1e-2))
+    elif k == 2:                                   # closed form, refined
+        v = log_uniform(rng, 0.5, 20); p = clampp(math.exp(-v / 1.24) * rng.uniform(0.01, 0.99))
+    elif k == 3:                                   # v <= .32 iteration
+        v = log_uniform(rng, 0.1, 0.32); p = clampp(1 - log_uniform(rng, 2e-6, 0.5) if rng.random() < 0.5 else rng.uniform(0.3, 0.999))
+    elif k == 4:                                   # cut-off v = -1.24 log p
+        p = clampp(rng.uniform(0.01, 0.99)); v = nxt(-1.24 * math.log(p), rng.randint(-2, 2))
+    elif k == 5:                                   # cut-off v = .32
+        v = nxt(.32, rng.randint(-2, 2)); p = clampp(rng.uniform(0.8, 0.999998))
+    elif k == 6:                                   # Wilson-Hilferty with tail correction ch > 2.2 v + 6
+        v = log_uniform(rng, 0.4, 50); p = clampp(1 - log_uniform(rng, 2e-6, 0.02))
+    elif k == 7:
+        v = log_uniform(rng, 50, 400)
+    elif k == 8:
+        v = rng.choice([1.0, 2.0, 4.0, 10.0, 100.0])
+    else:
+        v = log_uniform(rng, 0.1, 400); p = rng.choice([.000002, .999998, 0.5])
+    return p, v
+
+
+def ibeta_point(rng):
+    """(x, a, b): every arm of incompleteBeta and of its three sub-kernels"""
+    al, be = log_uniform(rng, 0.1, 200), log_uniform(rng, 0.1, 200)
+    k = rng.randrange(16)
+    if k <= 3:
+        x = beta_x(rng, al, be)
+    elif k == 4:      # direct power series, logarithmic normalisation (a + b >= maxgam)
+        al, be = rng.choice([(log_uniform(rng, 0.1, 8), rng.uniform(172, 200)), (rng.uniform(100, 200), rng.uniform(80, 200))])
+        x = min(1 / be, 0.95) * rng.random()
+    elif k == 5:      # power series after the swap, logarithmic normalisation
+        al, be = rng.uniform(172, 200), log_uniform(rng, 0.1, 8)
+        x = 1 - min(1 / al, 0.95) * rng.random()
+    elif k == 6:      # power series with |a log x| >= log(VERY_BIG): tiny x
+        x = log_uniform(rng, 1e-300, 1e-30); al = log_uniform(rng, 1, 200); be = log_uniform(rng, 0.1, 1 / 0.95)
+    elif k == 7:      # power series underflowing: t < log(VERY_TINY) -> 0
+        x = log_uniform(rng, 1e-300, 1e-10); al = rng.uniform(50, 200); be = rng.uniform(130, 200)
+    elif k == 8:      # continued fraction, logarithmic normalisation (a + b >= maxgam), both sides of the mean
+        al, be = rng.uniform(60, 200), rng.uniform(112, 200)
+        m = al / (al + be); sd = math.sqrt(al * be / ((al + be) ** 2 * (al + be + 1)))
+        x = min(max(m + sd * rng.uniform(-8, 8), 1e-3), 1 - 1e-3)
+    elif k == 9:      # continued fraction far in a tail: y < minlog -> 0, and 1 - VERY_TINY on the swapped side
+        al, be = rng.uniform(100, 200), rng.uniform(100, 200)
+        x = rng.choice([rng.uniform(0.01, 0.15), rng.uniform(0.85, 0.99)])
+    elif k == 10:     # direct normalisation, swapped side with t < VERY_TINY
+        al, be = rng.uniform(20, 80), rng.uniform(20, 80)
+        x = rng.uniform(0.93, 0.999)
+    elif k == 11:     # between the mode and the mean: fe2
+        al = log_uniform(rng, 1.2, 60); be = al * log_uniform(rng, 1.5, 20)
+        mode, mean = (al - 1) / (al + be - 2), al / (al + be)
+        x = rng.uniform(mode, mean)
+        if rng.random() < 0.5:
+            x, al, be = 1 - x, be, al
+    elif k == 12:     # small shapes (k2 = b - 1 < 0 etc.), x near the ends
+        al, be = log_uniform(rng, 0.1, 1), log_uniform(rng, 0.1, 1)
+        x = rng.choice([rng.random(), nxt(0.95, rng.randint(-2, 3)), 1 - log_uniform(rng, 1e-16, 0.05)])
+    elif k == 13:     # slow continued fraction: 300 rounds without convergence / rescaling
+        al, be = log_uniform(rng, 0.1, 200), log_uniform(rng, 0.1, 200)
+        x = rng.choice([0.96, 0.99, 0.999, 1 - 1e-6, 1 - 1e-10])
+    elif k == 14:     # exactly the mean / x = 0.95 / beta x = 1
+        x = rng.choice([al / (al + be), 0.95, min(1 / be, 0.9), nxt(1 / be, 1) if be > 1.1 else 0.95])
+    else:
+        al, be = rng.choice([1.0, 2.0, 0.5, 3.0]), rng.choice([1.0, 2.0, 0.5, 3.0]); x = rng.choice([0.25, 0.5, 0.75, 0.96])
+    return min(max(x, 5e-324), nxt(1.0, -1)), al, be
+
+
+def qbeta_point(rng):
+    """(p, a, b): the four start values, the reset, both tails"""
+    k = rng.randrange(10)
+    p = pq(rng)
+    qa, qb = log_uniform(rng, 0.3, 200), log_uniform(rng, 0.3, 200)
+    if k == 0:
+        pass
+    elif k == 1:      # both shapes > 1
+        qa, qb = log_uniform(rng, 1.01, 200), log_uniform(rng, 1.01, 200)
+    elif k == 2:      # a shape <= 1, t <= 0 start
+        qa, qb = log_uniform(rng, 0.3, 1), log_uniform(rng, 0.3, 0.6); p = rng.uniform(1e-6, 0.1) if rng.random() < 0.5 else 1 - rng.uniform(1e-6, 0.1)
+    elif k == 3:      # a shape <= 1, t <= 1 start
+        qa, qb = log_uniform(rng, 0.3, 1), log_uniform(rng, 1, 200)
+    elif k == 4:      # a shape <= 1, last start
+        qa, qb = log_uniform(rng, 0.3, 1), log_uniform(rng, 0.3, 3); p = rng.uniform(0.2, 0.8)
+    elif k == 5:      # start outside (lower, upper): reset
+        qa, qb = log_uniform(rng, 0.3, 0.5), log_uniform(rng, 50, 200); p = rng.choice([1e-6, 1 - 1e-6, rng.random()])
+    elif k == 6:      # very unequal shapes
+        qa, qb = log_uniform(rng, 0.3, 5), log_uniform(rng, 80, 200)
+        if rng.random() < 0.5:
+            qa, qb = qb, qa
+    elif k == 7:
+        p = rng.choice([0.5, nxt(0.5, 1), nxt(0.5, -1)])
+    elif k == 8:
+        qa = qb = log_uniform(rng, 0.3, 200)
+    else:
+        qa, qb = rng.choice([1.0, 2.0, 0.5]), rng.choice([1.0, 2.0, 0.5])
+    return p, qa, qb
+
+
+def kernel_random(rng, n):
+    ops = []
+    for _ in range(n):
+        x, a = ig_point(rng)
+        ops.append("k.ig %s %s %s" % (hx(x), hx(a), hx(lg(a))))
+        p, v = qchisq_point(rng)
+        ops.append("k.qchisq %s %s" % (hx(p), hx(v)))
+        x, al, be = ibeta_point(rng)
+        ops.append("k.ibeta %s %s %s" % (hx(x), hx(al), hx(be)))
+        ops.append("refl.ibeta %s %s %s" % (hx(x), hx(al), hx(be)))
+        if rng.random() < 0.34:
+            p, qa, qb = qbeta_point(rng)
+            ops.append("k.qbeta %s %s %s" % (hx(p), hx(qa), hx(qb)))
+            ops.append("refl.qbeta %s %s %s" % (hx(p), hx(qa), hx(qb)))
+    return chunks("krnd", ops, 200)
+
+
 def generate(seed, tier):
     rng = random.Random(seed)
     big = tier == "thorough"
@@ -382,6 +556,8 @@ def generate(seed, tier):
     cases += guard_random(rng, 100000 if big else 10000)
     cases += norm_tie(rng, 200000 if big else 20000)
     cases += explore(rng, 40000 if big else 3000)
+    cases += kernel_grid()
+    cases += kernel_random(rng, 60000 if big else 6000)
     return cases
 
 
